@@ -99,7 +99,7 @@ structure Contract (c : Codec) (cap : Nat) (d : List Nat) (r : EncResult) : Prop
   written_le : r.written ≤ cap + 1
   used_le : r.used ≤ d.length
   /-- the emitted text decodes to exactly the reported number of input bytes -/
-  decodes : ∀ N, d.length ≤ N → dec c N r.chars.length r.chars = d.take r.used
+  decodes : ∀ N, r.used ≤ N → dec c N r.chars.length r.chars = d.take r.used
   /-- nothing that fits is withheld: one more byte would need more than `cap` characters -/
   maximal : r.used = d.length ∨ cap < nchars c.k (r.used + 1)
   /-- the length ratio holds for the consumed part -/
@@ -178,7 +178,7 @@ theorem chunks_lossless {c : Codec} (wf : WF c) (caps : List Nat) (d : List Nat)
     have hd' : Bytes (d.drop (enc c cap d).used) := fun b hb => hd b (List.mem_of_mem_drop hb)
     have ih' := ih (d.drop (enc c cap d).used) hd' (by simp; omega)
     simp only [encChunks, List.flatMap_cons, List.append_assoc]
-    rw [hc.decodes N hN, ih', List.take_append_drop]
+    rw [hc.decodes N (Nat.le_trans hc.used_le hN), ih', List.take_append_drop]
 
 /-! ### Non-vacuity: concrete instances of the hypotheses and of the interesting branches -/
 
